@@ -24,8 +24,11 @@ PROP = dict(
                   "clap argument parsing, process plumbing and file I/O of the tool (driven with valid flags)",
                   "the trie file format (C11) and SQLite (C09) are abstracted to entry lists: insert semantics, enumeration "
                   "order and lookup order are modelled and compared with the real files on every run, not derived from bytes",
-                  "slice::sort_by is a stable sort; on comparators that are not a total order (leaves mixing one-character "
-                  "and longer phrases) the model is the insertion sort std uses for <= 20 elements"],
+                  "slice::sort_by: for the leaves of well-formed sources the model does not depend on the algorithm "
+                  "(leaf_sort_single: the comparator says Equal throughout, so stability alone fixes the result; "
+                  "leaf_sort_multi_unique: a total order, every sorting algorithm agrees); only leaves mixing one-character and "
+                  "longer phrases (F27 length-mismatch; comparator not a total order before the pending trie fix) rely on the "
+                  "model being the insertion sort std uses for <= 20 elements"],
     assumptions=["text is modelled as a list of code points; sources are bytes only at the entrance (readRawLines / compileRaw: "
                  "strict UTF-8 decoding per line), where a line that is not valid UTF-8 ends the run (F45)",
                  "known findings: F27 (no-syllables, length-mismatch, empty-phrase, word-freq-unchecked: malformed lines the "
@@ -64,7 +67,9 @@ MANIFEST = dict(
          "nested keys emitted deepest first, each leaf stably sorted by the write() comparator, (c) lookup = the leaf in stored "
          "order, (d) no 16-bit length overflow (leaf < 64 KiB, < 65536 children); and of SQLite INSERT OR REPLACE, primary-key "
          "enumeration and ORDER BY sort_id, freq DESC, phrase DESC. These are validated by correspondence on every run; their "
-         "byte-level justification belongs to C11 (Der/TrieCodec) / C09.",
+         "byte-level justification belongs to C11 (Der/TrieCodec: (a) insert_semantics / reinsert_replaces / builder_is_map, "
+         "(b) entries_correct, (c) lookup_correct + order_single_leaf / order_multi_leaf, (d) writes_within_limits) and C09; "
+         "the two models are not yet connected by a theorem.",
     technique="Lean 4 proof (induction over lines / entry lists, sorted-permutation uniqueness, stable-sort idempotence for an "
               "asymmetric comparator, kernel-evaluated witnesses) over a translator-regenerated model; sampled "
               "model/implementation correspondence through the real command-line binary",
